@@ -21,7 +21,15 @@ def check(case):
     errs = state.wf_errors(g)
     if errs and not history:
         fail(errs[0][0], errs[0][1], None)
+    from bounded import c03
+    amb = c03.ambiguous(version, order)
+    done = []
     for st in history:
+        if amb and st[0] in ("rm", "rename", "disconnect") and isinstance(st[1], str) and g.line(st[1]) is None:
+            # a path with unspecified overlaps over parallel links: which link it depends on (and so whether an earlier removal took the path
+            # along) is not pinned; the history ends here and the invariant is checked on what was done
+            break
+        done.append(st)
         if st[0] == "rm":
             targets.append(g.line(st[1]))
         elif st[0] == "rm_line":
@@ -31,14 +39,13 @@ def check(case):
         except Exception as e:
             fail("step-raises-" + type(e).__name__, "%s: %s" % (st[:3], harness.short(e)), st)
             break
-    else:
-        if history:
-            errs = state.wf_errors(g)
-            if errs:
-                fail(errs[0][0], errs[0][1], history[-1])
-            for x in targets:
-                if x is not None and x._gfa is not None:
-                    fail("removed-line-still-owned", state.ident(x), history[-1]); break
+    if not fails and done:
+        errs = state.wf_errors(g)
+        if errs:
+            fail(errs[0][0], errs[0][1], done[-1])
+        for x in targets:
+            if x is not None and x._gfa is not None:
+                fail("removed-line-still-owned", state.ident(x), done[-1]); break
     return dict(key=key, nontrivial=True, failures=fails, sample=histories.describe(version, order, history))
 
 
